@@ -186,6 +186,8 @@ func (w *W) writer(id int, kind string) io.Writer {
 
 func makeIface(sw *simWriter) io.Writer {
 	switch sw.kind {
+	case "wrapped": // a plain writer given through the public NewLogWriter constructor
+		return slog.NewLogWriter(&plainW{sw})
 	case "logwriter", "file":
 		return &closerW{sw}
 	case "levelsettable":
